@@ -3,6 +3,6 @@ From GD Require Import C10.Wrap C10.Guards C10.Recurse C10.Calls Gen.Recurse Gen
 Require Import ExtrOcamlBasic.
 Extraction Language OCaml.
 Extraction "model.ml" getdata64_range putdata64_range dofield_guard seek64_sample seek64_offset seek_entry_guard
-  doseek_guard slice_guard addbit_guard fragment_guard fragment_guard_all slice_forms
+  doseek_guard slice_guard addbit_guard addbit_guard_f addbit_form fragment_guard fragment_guard_all slice_forms
   recurse_table leaks table_balanced gen_step gen_leak_in gen_leak_out obs run_seq
   Z.add Z.mul Z.sub Z.opp Z.div Z.modulo Z.ltb Z.eqb Z.of_nat Z.to_nat Z.abs.
